@@ -128,9 +128,9 @@ AddDollar == /\ Step("dollar")
 MessageLine == [kind |-> "text", lead |-> <<>>, amp |-> FALSE, dollar |-> FALSE, upper |-> FALSE, frozen |-> TRUE,
                 seps |-> << <<"b">> >>,
                 toks |-> << [id |-> "message:", w |-> "message:", alts |-> <<>>, rep |-> 0, ok |-> FALSE, val |-> 0,
-                             kind |-> "", n |-> 0, exp |-> <<>>, jok |-> FALSE],
+                             kind |-> "", n |-> 0, exp |-> <<>>, jok |-> FALSE, arr |-> FALSE],
                             [id |-> "outp=x", w |-> "outp=x", alts |-> <<>>, rep |-> 0, ok |-> FALSE, val |-> 0,
-                             kind |-> "", n |-> 0, exp |-> <<>>, jok |-> FALSE] >>]
+                             kind |-> "", n |-> 0, exp |-> <<>>, jok |-> FALSE, arr |-> FALSE] >>]
 BlankLine == [kind |-> "blank", lead |-> <<>>, toks |-> <<>>, seps |-> <<>>, amp |-> FALSE, dollar |-> FALSE, upper |-> FALSE,
               frozen |-> TRUE]
 AddMessage == /\ Step("message") /\ ~HasMessage(lines)
@@ -140,14 +140,24 @@ Respell == /\ Step("number")
                 lines' = [lines EXCEPT ![i].toks[j].w = lines[i].toks[j].alts[a]]
 (* shorthand: contract entries of an IMP data card (integers) or the last row of a TR card *)
 Short(kind, n, w, exp) == [id |-> w, w |-> w, alts |-> <<>>, rep |-> 0, ok |-> FALSE, val |-> 0, kind |-> kind, n |-> n, exp |-> exp,
-                           jok |-> FALSE]
+                           jok |-> FALSE, arr |-> FALSE]
 Plain(t) == t.kind = "" /\ t.w = t.id
 Contract == /\ Step("repeat")
             /\ \E i \in CardIdx : \E j \in 2..Len(lines[i].toks) :
                  LET l == lines[i] IN
-                 /\ l.toks[1].id = "imp:n" /\ j >= 3
+                 /\ ((l.toks[1].id = "imp:n" /\ j >= 3) \/ (l.toks[j].arr /\ l.toks[j - 1].arr))
                  /\ Plain(l.toks[j]) /\ Plain(l.toks[j - 1]) /\ l.toks[j].id = l.toks[j - 1].id
                  /\ lines' = [lines EXCEPT ![i].toks[j] = Short("r", 1, "1r", <<>>)]
+(* three equal entries in a row -> "x 2r" (also in a FILL array on a cell card: tokens flagged arr) *)
+Contract2 == /\ Step("repeat2")
+             /\ \E i \in CardIdx : \E j \in 4..Len(lines[i].toks) :
+                  LET l == lines[i] IN
+                  /\ (l.toks[1].id = "imp:n" \/ (l.toks[j].arr /\ l.toks[j - 1].arr /\ l.toks[j - 2].arr))
+                  /\ Plain(l.toks[j]) /\ Plain(l.toks[j - 1]) /\ Plain(l.toks[j - 2])
+                  /\ l.toks[j].id = l.toks[j - 1].id /\ l.toks[j - 1].id = l.toks[j - 2].id
+                  /\ lines' = [lines EXCEPT ![i].toks = SubSeq(l.toks, 1, j - 2) \o << Short("r", 2, "2r", <<>>) >>
+                                                          \o SubSeq(l.toks, j + 1, Len(l.toks)),
+                                            ![i].seps = SubSeq(l.seps, 1, j - 2) \o SubSeq(l.seps, j, Len(l.seps))]
 ContractM == /\ Step("multiply")
              /\ \E i \in CardIdx : \E j \in 3..Len(lines[i].toks) :
                   LET l == lines[i] IN
@@ -174,7 +184,7 @@ Emit == /\ depth >= 1 /\ last # "emitted"
         /\ PrintT(ToJson([lines |-> lines, depth |-> depth, last |-> last, spelled |-> ReadSpelled(lines)]))
         /\ last' = "emitted" /\ UNCHANGED <<lines, depth>>
 Rewrite == ChangeCase \/ WidenBlanks \/ SplitIndent \/ SplitAmp \/ InsertComment \/ IndentCard \/ AddDollar \/ AddMessage
-           \/ Respell \/ Contract \/ ContractM \/ ContractI \/ ContractJ
+           \/ Respell \/ Contract \/ Contract2 \/ ContractM \/ ContractI \/ ContractJ
 Next == (last # "emitted" /\ Rewrite) \/ Emit
 Spec == Init /\ [][Next]_vars
 
